@@ -2209,7 +2209,7 @@ class CIMInstanceName(_CIMComparisonMixin, SlottedPickleMixin):
                 # which is the precision needed to round-trip double precision
                 # IEE-754 floating point numbers between decimal and binary
                 # without loss.
-                ret.append(repr(value))
+                ret.append(repr(float(value)))
             elif isinstance(value, (CIMInt, int)):
                 # intNN
                 ret.append(str(value))
